@@ -2087,6 +2087,7 @@ def preprocess_file(
     def expand_func_macro(def_name: str, def_value: tuple[str, str]):
         def_args, sub = def_value
         def_args = def_args.split(",")
+        sub = sub.replace("\\", "\\\\")  # the body is literal text, not a re template
         regex = re.compile(rf"\b{def_name}\s*\({','.join(['(.*)']*len(def_args))}\)")
 
         for i, arg in enumerate(def_args, start=1):
@@ -2306,6 +2307,8 @@ def preprocess_file(
 
             if isinstance(def_regex, tuple):
                 def_regex, value = def_regex
+            else:
+                value = value.replace("\\", "\\\\")  # literal text, not a re template
 
             line_new, nsubs = def_regex.subn(value, line)
             if nsubs > 0:
